@@ -55,6 +55,12 @@ def node_fn(kind, vals):
     raise AssertionError(kind)
 
 
+def with_inverted(val):
+    """Add the values of the '_not_NAME' shortcuts (automatic inverters) of all known names."""
+    val.update({'_not_' + k: not v for k, v in list(val.items()) if not k.startswith(('#', '_not_'))})
+    return val
+
+
 def consistent_assignments(spec, srcvals):
     """Brute force: all assignments of the CBlocks (and fed inputs) consistent with srcvals."""
     cbs = spec['cblocks']
@@ -67,6 +73,7 @@ def consistent_assignments(spec, srcvals):
         val.update(zip(names, bits))
         for fname, feeder in fed.items():
             val[fname] = val[feeder]
+        with_inverted(val)
         if all(node_fn(c['kind'], [val[i] for i in c['ins']]) == val[c['name']] for c in cbs):
             out.append(bits)
             if len(out) > 3:
@@ -76,7 +83,9 @@ def consistent_assignments(spec, srcvals):
 
 def is_acyclic(spec):
     fed = {f['name']: f['feeder'] for f in spec['fed']}
-    deps = {c['name']: [fed.get(i, i) for i in c['ins']] for c in spec['cblocks']}
+    deps = {c['name']: [fed.get(i[5:] if i.startswith('_not_') else i,
+                                i[5:] if i.startswith('_not_') else i) for i in c['ins']]
+            for c in spec['cblocks']}
     state = {}
 
     def visit(n):
@@ -121,6 +130,14 @@ def run_network(spec, walk, ctx, case):
         val = {'#T': True, '#F': False}
         for b in circuit.getblocks():
             val[b.name] = b.output
+        for name in {i for c in spec['cblocks'] for i in c['ins'] if i.startswith('_not_')}:
+            # the automatic inverter behind a '_not_NAME' input must agree with NAME as well
+            ctx.count('shortcut_inverters_checked')
+            real = val.get(name, edzed.UNDEF)
+            if real is edzed.UNDEF or bool(real) != (not val[name[5:]]):
+                raise core.Violation(
+                    'idle-but-inconsistent',
+                    f"{where}: inverter {name} = {real!r} while {name[5:]} = {val[name[5:]]!r}")
         for c in spec['cblocks']:
             ctx.count('idle_consistency_checks')
             exp = node_fn(c['kind'], [val[i] for i in c['ins']])
@@ -129,6 +146,16 @@ def run_network(spec, walk, ctx, case):
                     'idle-but-inconsistent',
                     f"{where}: {c['kind']} {c['name']} = {val[c['name']]!r} but inputs "
                     f"{[(i, val[i]) for i in c['ins']]}")
+        if spec.get('retype'):
+            # type-sensitive observers (a formatter): consistent = function of the CURRENT
+            # output object of the source, not of an equal one
+            for src in spec['sources']:
+                ctx.count('type_sensitive_observers_checked')
+                if val['obs_' + src] != repr(val[src]):
+                    raise core.Violation(
+                        'idle-but-inconsistent',
+                        f"{where}: observer obs_{src} = {val['obs_' + src]!r} while {src} holds "
+                        f"{val[src]!r} (repr {repr(val[src])!r})")
         for fname, feeder in fed.items():
             if val[fname] != val[feeder]:
                 raise core.Violation('idle-but-inconsistent',
@@ -212,6 +239,9 @@ def run_network(spec, walk, ctx, case):
                     raise HarnessAbort("more than 100*n evaluations in one burst")
                 return orig()
             blk.eval_block = eval_block
+        if spec.get('retype'):
+            for src in spec['sources']:
+                edzed.FuncBlock('obs_' + src, func=repr).connect(src)
         state['n'] = len(list(edzed.get_circuit().getblocks()))
         state['limit'] = 10 * state['n']
         return created
@@ -220,6 +250,28 @@ def run_network(spec, walk, ctx, case):
 
     async def drive(sim, created):
         await harness.settle(3)
+        if spec.get('rapid'):
+            # another task changes the source in every single iteration of the event loop
+            ctx.count('rapid_source_changes')
+            src = created[spec['sources'][0]]
+            for k in range(14):
+                if not sim.alive():
+                    break
+                edzed.ExtEvent(src, 'put').send(bool(k % 2) != spec['init'][spec['sources'][0]])
+                await asyncio.sleep(0)
+            await harness.settle(4)
+        if spec.get('storm'):
+            # a backlog: far more than 3 x (number of blocks) output changes of one sequential
+            # block are waiting when the simulator wakes up - one batch, little work
+            ctx.count('backlogs_of_source_changes')
+            src = created[spec['sources'][0]]
+            v0 = spec['init'][spec['sources'][0]]
+            for k in range(2 * (2 * state['n'] + 3)):
+                if not sim.alive():
+                    break
+                edzed.ExtEvent(src, 'put').send(bool(k % 2) != bool(v0))
+            await harness.settle(4)
+            state['burst_evals'] = 0
         for step, vec in enumerate(walk):
             result['cur_step'] = step
             if step:
@@ -238,6 +290,20 @@ def run_network(spec, walk, ctx, case):
             if not sim.alive():
                 result['stopped_at'] = step
                 return
+            if spec.get('retype'):
+                # the same values again as equal objects of another type (True -> 1 -> 1.0):
+                # not a change; the network must still describe the objects the sources hold
+                for sname in spec['sources']:
+                    cur = created[sname].output
+                    other = {bool: int, int: float, float: bool}.get(type(cur))
+                    if other is not None and (step + len(sname)) % 2:
+                        edzed.ExtEvent(created[sname], 'put').send(other(cur))
+                await harness.settle(2)
+                if sim.alive() and state['viol'] is None:
+                    try:
+                        check_consistent(edzed.get_circuit(), f"after equal re-puts, step {step}")
+                    except core.Violation as v:
+                        state['viol'] = v
         return True
 
     async def run_main(loop):
@@ -385,6 +451,10 @@ def random_network(rng):
         cbs.append({'name': 'konst', 'kind': kind, 'ins': [rng.choice(['#T', '#F']) for _ in range(k)]})
         cbs.append({'name': 'kuser', 'kind': rng.choice(['xor', 'and', 'or']),
                     'ins': ['konst', rng.choice(sources)]})
+    if rng.random() < 0.3:
+        # some source inputs are taken through the '_not_NAME' shortcut (automatic inverters)
+        for c in cbs:
+            c['ins'] = ['_not_' + i if i in sources and rng.random() < 0.4 else i for i in c['ins']]
     spec = {'sources': sources, 'init': {s: rng.random() < 0.5 for s in sources},
             'fed': fed, 'cblocks': cbs}
     if rng.random() < 0.15:
@@ -470,7 +540,7 @@ def big_chain(rng):
             cbs.append({'name': f"c{i}", 'kind': rng.choice(['not', 'ident']), 'ins': [prev]})
     rng.shuffle(cbs)
     return {'sources': ['s0'], 'init': {'s0': rng.random() < 0.5}, 'fed': [], 'cblocks': cbs,
-            'single_path': True, 'perturb': True}
+            'single_path': True, 'perturb': True, 'rapid': rng.random() < 0.6}
 
 
 def gen(ctx):
@@ -531,6 +601,10 @@ def gen(ctx):
             walk.append({s: not cur[s]})
         if kind in ('random', 'ring') and rng.random() < 0.25:
             spec['via_run'] = True
+        elif rng.random() < 0.25:
+            spec['retype'] = True
+        if not spec.get('faulty_src') and rng.random() < 0.15:
+            spec['storm'] = True
         if rng.random() < 0.3 and not spec.get('relay') and not spec.get('faulty_src'):
             cands = [(s, c['name']) for c in spec['cblocks'] for s in spec['sources']
                      if s in c['ins'] and any(c['name'] in d['ins'] for d in spec['cblocks'])]
